@@ -15,6 +15,7 @@ HARNESSES = [
     ("fz_xml", "fuzz", ()),
     ("fz_xml_file", "fuzz", ("-DVIA_FILE=1",), "fz_xml"),
     ("fz_diffxml", "fuzz", ()),
+    ("c09", "rcfork", ()),
     ("c11", "rcfork", ()),
     ("c12", "rcfork", ()),
     ("fz_typesscanf", "fuzz", ()),
@@ -100,7 +101,7 @@ def replay_one(ctx, path):
 
 
 # engine cfg.name -> source file name
-ALIASES = {"c01_load": "c01", "c02_history": "c02", "c03_bitmap": "c03", "c05_xml": "c05", "c06_xmlmut": "c06", "c07_synthetic": "c07", "c08_restrict": "c08", "c11_types": "c11", "c12_dup": "c12", "c13_distances": "c13", "c14_memattrs": "c14", "c15_cpukinds": "c15", "c16_diff": "c16", "c04_strings": "c04"}
+ALIASES = {"c01_load": "c01", "c02_history": "c02", "c03_bitmap": "c03", "c05_xml": "c05", "c06_xmlmut": "c06", "c07_synthetic": "c07", "c08_restrict": "c08", "c09_helpers": "c09", "c11_types": "c11", "c12_dup": "c12", "c13_distances": "c13", "c14_memattrs": "c14", "c15_cpukinds": "c15", "c16_diff": "c16", "c04_strings": "c04"}
 
 
 def C01(ctx):
@@ -212,7 +213,7 @@ def C06(ctx):
 
 
 def C07(ctx):
-    std_check(ctx, [dict(harness="c07", aliases=["c07_synthetic"], cases=(450, 14000), max_ops=1)])
+    std_check(ctx, [dict(harness="c07", aliases=["c07_synthetic"], cases=(350, 14000), max_ops=1)])
     seeds = [b"pack:2 [numa] l3:2 core:2 pu:2", b"numa:3 pack:2 core:2 pu:1", b"2 3 4 5 6", b"pack:2 core:2 pu:2(indexes=core:pu)", b"Package:1 Group:4 [NUMANode(memory=1GB indexes=1,0,3,2)] [numa] core:4 pu:2(indexes=2*4:4*2)",
              b"(memory=4GB) pack:2 numa:2(memory=512MB memorysidecachesize=16MB) l2:2(size=1MB) pu:2", b"Group:1 Group:1 Group:1 Group:1 Group:1 pu:3"]
     run_fuzz_targets(ctx, [dict(name="fz_synthetic", seconds=(20, 600), workers=(14, 14), max_len=512, seeds=seeds, dict=os.path.join(V.VERIF, "support", "syn.dict"), hang_is_violation=True,
@@ -226,4 +227,8 @@ def C11(ctx):
     ctx.extra["exhaustive_slices"] = {"compare_types": "all %d x %d type pairs" % (20, 20), "parser": "32 names x 255 next bytes x 3 suffixes = 24480 calls", "where": "named case 'exhaustive' in the replay tier (runs on every check) and on a 4% sample of generated cases"}
 
 
-PROPS = {"C01": C01, "C11": C11, "C07": C07, "C06": C06, "C05": C05, "C16": C16, "C14": C14, "C13": C13, "C15": C15, "C08": C08, "C12": C12, "C02": C02, "C03": C03, "C04": C04}
+def C09(ctx):
+    std_check(ctx, [dict(harness="c09", aliases=["c09_helpers"], cases=(600, 12000), max_ops=1)])
+
+
+PROPS = {"C01": C01, "C09": C09, "C11": C11, "C07": C07, "C06": C06, "C05": C05, "C16": C16, "C14": C14, "C13": C13, "C15": C15, "C08": C08, "C12": C12, "C02": C02, "C03": C03, "C04": C04}
